@@ -37,6 +37,12 @@ SORT_KEYS = {
 MODEL_SORT_KEYS = dict(SORT_KEYS, default=lambda n: n.lower())
 
 
+def lines_of(text):
+    """Lines end at "\n" and nowhere else (str.splitlines would also cut at FF, NEL, U+2028 ...)."""
+    parts = text.split("\n")
+    return [l + "\n" for l in parts[:-1]] + ([parts[-1]] if parts[-1] else [])
+
+
 class DocRun(object):
     def __init__(self, doc, dups, strict_nl, use_view=False, blind=False):
         self.strict_nl = strict_nl
@@ -62,17 +68,18 @@ class DocRun(object):
         self.labels = set()
         if text and not text.endswith("\n"):
             self.labels.add("doc-without-final-newline")
-        self.file = parse_deb822_file(text.splitlines(True),
+        self.file = parse_deb822_file(lines_of(text),
                                       accept_files_with_duplicated_fields=dups)
         # a second, never modified document parsed from the same text: whatever is done to the
         # first one, this one must keep dumping the original text (no state shared between documents)
-        self.twin = parse_deb822_file(text.splitlines(True), accept_files_with_duplicated_fields=dups)
+        self.twin = parse_deb822_file(lines_of(text), accept_files_with_duplicated_fields=dups)
         self.rparas = list(self.file)
         if len(self.rparas) != len(self.paras):
             raise Violation("parse-paragraph-count", "parsed %d paragraphs from %s, expected %d" % (
                 len(self.rparas), short(text), len(self.paras)))
         self.use_view = use_view
         self.token_roles = ()
+        self.neg_roles = ()
         self.compare("parse")
         self.blind = self._blind_wanted
         if self.blind:
@@ -134,6 +141,13 @@ class DocRun(object):
         token (the third documented key form; it denotes exactly that occurrence)."""
         name, idx = key
         k = name if idx is None else (name, idx)
+        if role in self.neg_roles and idx is not None:
+            # (name, -k): counted from the last occurrence, as the library's own error message
+            # advertises ("or e.g. -1 to denote the last field")
+            n = len(self.occ(p, name))
+            if n >= 2 and 0 <= idx < n:       # a paragraph without duplicates takes no index but 0
+                self.labels.add("key-form:negative-index")
+                return (name, idx - n)
         if role in self.token_roles:
             occ = self.occ(p, name)
             if occ and (idx is not None or len(occ) == 1):
@@ -568,7 +582,7 @@ class DocRun(object):
             raise Violation("edit-leaks-into-another-document", "an unmodified document parsed from "
                             "the same text now dumps %s, text %s" % (short(self.twin.dump()), short(self.text0)))
         d = self.file.dump()
-        f2 = parse_deb822_file(d.splitlines(True), accept_files_with_duplicated_fields=True)
+        f2 = parse_deb822_file(lines_of(d), accept_files_with_duplicated_fields=True)
         got = []
         for rp in f2:
             names = [str(k) for k in rp.keys()]
